@@ -5,6 +5,7 @@ mod engine;
 mod gen;
 mod props;
 mod terms;
+mod universe;
 
 use engine::{Run, Tier};
 
